@@ -1,4 +1,5 @@
 """C15 — idempotence of sanitization: three structural necessary conditions (closure of replacement tables, locality of verdicts, full traversal)."""
+import re
 from .. import dex as D, world as W, mir as M
 from . import util as U
 from .C14 import phf, SPEC, CL
@@ -112,6 +113,40 @@ def run(ctx):
     ctx.check(not bad, "C15.replacements-mode", "C15.replacements-mode:mode-blind", w.where(fr),
               bad_msg=f"apply_replacements branches on {bad}: the built-in replacements of deprecated elements/attributes are applied in one mode only "
                       f"(e.g. compat-mode `Html::sanitize()` unwraps <font color=..> instead of rewriting it to <span data-mx-color=..>)")
+    # ---- a clean class attribute is left alone ------------------------------------------------------------------------------
+    ctx.rule("C15.class-untouched", "the per-attribute closure leaves a `class` value alone when no class was filtered out: the no-action verdict compares the "
+                                    "NUMBER of class tokens before and after filtering; the re-joined text is only ever written (ReplaceValue), never compared "
+                                    "with the original value (`a  b`, ` a`, a tab between classes are clean values that differ from their single-space re-join)")
+    import json as _json
+    from . import panic_common as PC
+    clos = [fn for fn in w.all_fns() if fn["path"].startswith(CL + IMPL + "clean_element_attributes::{closure#") and "body" in fn]
+    mainc = max(clos, key=lambda fn: len(fn["body"]["blocks"])) if clos else None
+    if mainc is None:
+        ctx.missing("C15.class-untouched", "C15.class-untouched:closure", "per-attribute closure not found")
+    else:
+        body = mainc["body"]
+        defs = PC.roots(body)
+        len_cmp = False
+        for b in body["blocks"]:
+            for st in b["s"]:
+                if st[0] == "=" and st[2][0] == "bin" and st[2][1] in ("Eq", "Ne", "Lt", "Gt", "Le", "Ge"):
+                    l, r = (_json.dumps(PC.expr(body, defs, st[2][k])) for k in (2, 3))
+                    if "Vec::<T, A>::len" in l and "Vec::<T, A>::len" in r and ("split_whitespace" in l + r or "split_ascii_whitespace" in l + r):
+                        len_cmp = True
+        joined_compared = []
+        for bi, c in M.calls(body):
+            n = M.callee_name(c)
+            if re.search(r"PartialEq.*::(eq|ne)$|::(cmp|partial_cmp|starts_with|ends_with|contains|eq_ignore_ascii_case)$", n):
+                args = [_json.dumps(PC.expr(body, defs, a)) for a in c["args"]]
+                if any("::join" in a or "::concat" in a for a in args):
+                    joined_compared.append((n.rsplit("::", 1)[-1], c["line"]))
+        if joined_compared:
+            ctx.violation("C15.class-untouched", "C15.class-untouched:text-compare", w.where(mainc, joined_compared[0][1]),
+                          f"the re-joined class list is compared ({joined_compared[0][0]}) with another string: a clean `class` value with irregular whitespace "
+                          f"(`language-a  language-b`, a leading space, a tab) differs from its re-join and is rewritten or removed although nothing was filtered")
+        else:
+            ctx.check(len_cmp, "C15.class-untouched", "C15.class-untouched:count-compare", w.where(mainc),
+                      bad_msg="no comparison of the class count before and after filtering was found: the attribute is rewritten even when nothing was filtered")
     ctx.assumptions += ["idempotence itself (equality of serialized documents) is not decided; these are necessary conditions only"]
     ctx.samples += [{"replacement": "font -> span, color -> data-mx-color", "closure": "span allows data-mx-color; span is not deprecated"}]
 
